@@ -198,3 +198,90 @@ Definition wf_C15_merge (x : merge_input) : bool :=
   let sch := fst x in
   let '(a, b, c) := snd x in
   wf_obj sch a && wf_obj sch b && wf_obj sch c.
+
+(* ---- executor: what is observed on the real MeshExecutor.execute_for ------------------------------ *)
+
+(* outcome of execute_for(device): the peers of the BgpConfig (each as attribute map, PeerOptions
+   nested under "options" with its non-None fields) and the (interface, address) pairs the run
+   assigned on the device through Interface.add_addr; or ValueError; or any other exception *)
+Inductive xres :=
+| XOk (peers : list entries) (addrs : list (string * string))
+| XValueError
+| XOther.
+
+Definition peer_eqb (p q : entries) : bool := veqb false (MMerge []) (VObj p) (VObj q).
+
+Definition peers_same (ps qs : list entries) : bool :=
+  Nat.eqb (List.length ps) (List.length qs) &&
+  forallb (fun p => existsb (peer_eqb p) qs) ps && forallb (fun q => existsb (peer_eqb q) ps) qs.
+
+Definition sa_eqb (a b : string * string) : bool :=
+  String.eqb (fst a) (fst b) && String.eqb (snd a) (snd b).
+
+Definition addrs_same (a b : list (string * string)) : bool :=
+  Nat.eqb (List.length a) (List.length b) &&
+  forallb (fun x => existsb (sa_eqb x) b) a && forallb (fun x => existsb (sa_eqb x) a) b.
+
+Definition xres_same (a b : xres) : bool :=
+  match a, b with
+  | XOk p ad, XOk q bd => peers_same p q && addrs_same ad bd
+  | XValueError, XValueError => true
+  | _, _ => false
+  end.
+
+(* "for all permutations of handler registration: execute_for result equal or ValueError in all" *)
+Definition perm_inv (outs : list xres) : bool :=
+  match outs with
+  | [] => true
+  | o :: r => match o with XOther => false | _ => true end && forallb (xres_same o) r
+  end.
+
+(* str(ip_interface(x).ip) on canonical text: drop the "/len" *)
+Fixpoint ip_of (s : string) : string :=
+  match s with
+  | EmptyString => EmptyString
+  | String c r => if Ascii.eqb c "/"%char then EmptyString else String c (ip_of r)
+  end.
+
+Definition get_atom (f : string) (p : entries) : atom :=
+  match lookup f p with Some (VAtom a) => a | _ => ANone end.
+Definition get_str (f : string) (p : entries) : string :=
+  match get_atom f p with AStr s => s | _ => EmptyString end.
+Definition local_as (p : entries) : atom :=
+  match lookup "options" p with Some (VObj o) => get_atom "local_as" o | _ => ANone end.
+Definition get_val (f : string) (p : entries) : value :=
+  match lookup f p with Some v => v | None => VAtom ANone end.
+
+Definition local_ips (addrs : list (string * string)) (ifname : string) : list string :=
+  map (fun x => ip_of (snd x)) (filter (fun x => String.eqb (fst x) ifname) addrs).
+
+Definition smem (s : string) (l : list string) : bool := existsb (String.eqb s) l.
+
+(* q, computed on B, is the other end of p, computed on A *)
+Definition mirrors (A : string) (addrsA addrsB : list (string * string)) (p q : entries) : bool :=
+  String.eqb (get_str "hostname" q) A &&
+  smem (get_str "addr" q) (local_ips addrsA (get_str "interface" p)) &&
+  smem (get_str "addr" p) (local_ips addrsB (get_str "interface" q)) &&
+  atom_eqb (get_atom "remote_as" p) (local_as q) &&
+  atom_eqb (get_atom "remote_as" q) (local_as p) &&
+  value_eqb (get_val "families" p) (get_val "families" q) &&
+  atom_eqb (get_atom "vrf_name" p) (get_atom "vrf_name" q) &&
+  atom_eqb (get_atom "group_name" p) (get_atom "group_name" q).
+
+Definition mirror_pair (A B : string) (oa ob : xres) : bool :=
+  match oa, ob with
+  | XOk pa aa, XOk pb ab =>
+    forallb (fun p => negb (String.eqb (get_str "hostname" p) B) || existsb (mirrors A aa ab p) pb) pa
+  | _, _ => true                      (* a side that raised has no peers to compare *)
+  end.
+
+Definition first_out (l : list xres) : xres := match l with o :: _ => o | [] => XOther end.
+
+(* input: device names; observed: per device the distinct outcomes over all permutations of rule
+   registration, the registration order of the case first *)
+Definition exec_output := list (string * list xres).
+
+Definition P_C15_exec (y : exec_output) : bool :=
+  forallb (fun d => perm_inv (snd d)) y &&
+  forallb (fun da => forallb (fun db =>
+    mirror_pair (fst da) (fst db) (first_out (snd da)) (first_out (snd db))) y) y.
